@@ -7,7 +7,7 @@
 From Coq Require Import List Arith Lia Bool ZArith NArith.
 Import ListNotations.
 From Exmex.Model Require Import Base Lexer.
-From Exmex.Proofs Require Import Vars CommaRewrite LongestMatch LexSpaced LexFlex.
+From Exmex.Proofs Require Import Vars CommaRewrite LongestMatch LexerFacts LexSpaced LexFlex.
 Open Scope nat_scope.
 
 Section LexLocal.
@@ -279,3 +279,41 @@ Proof.
   apply rewrite_call_form. exact Hp.
 Qed.
 End CallLocal.
+
+(* ---------- the default number pattern as literal matcher ---------- *)
+Section DefaultMatcher.
+Context {D : Type}.
+Variable C : carrier D.
+Variable tb : optable.
+
+Lemma num_char_plain c : num_char c = true -> special c = false.
+Proof.
+  intros H. unfold special.
+  destruct (N.eqb_spec c SPACE) as [->|_]; [discriminate H|]. destruct (N.eqb_spec c LPAR) as [->|_]; [discriminate H|].
+  destruct (N.eqb_spec c RPAR) as [->|_]; [discriminate H|]. destruct (N.eqb_spec c COMMA) as [->|_]; [discriminate H|].
+  destruct (N.eqb_spec c LBRACE) as [->|_]; [discriminate H|]. reflexivity.
+Qed.
+
+(* a text that does not start with a digit or a dot is no number *)
+Lemma not_numeric c tl : num_char c = false -> is_numeric_text (c :: tl) = None.
+Proof. intros H. unfold is_numeric_text. cbn [take_while]. unfold num_char in H. rewrite H. reflexivity. Qed.
+
+(* a number whose Debug text is digits with at most one dot (not a lone dot) and reads back as that number is readable in
+   front of anything that does not continue it with a digit or a dot *)
+Theorem number_readable_default (d : D) (rest : str) :
+  show C d <> [] -> forallb num_char (show C d) = true ->
+  ((Nat.ltb 1 (length (show C d)) && Nat.ltb (count_dots (show C d)) 2) || (Nat.eqb (length (show C d)) 1 && Nat.eqb (count_dots (show C d)) 0)) = true ->
+  (match rest with [] => True | c :: _ => num_char c = false end) ->
+  lit C (show C d) = Some d ->
+  readable C tb is_numeric_text (PT (TNum d)) rest.
+Proof.
+  intros Hne Hall Hshape Hrest Hlit. cbn [readable]. split; [|split; [|exact Hlit]].
+  - destruct (show C d) as [|c tl]; [exfalso; apply Hne; reflexivity|]. exists c, tl. split; [reflexivity|].
+    cbn [forallb] in Hall. apply andb_prop in Hall. exact (num_char_plain c (proj1 Hall)).
+  - rewrite (is_numeric_text_spec (show C d) rest Hne Hall Hrest), Hshape. reflexivity.
+Qed.
+
+(* operator names and bare variable names that do not start with a digit or a dot are not taken by the number pattern *)
+Lemma name_not_numeric (x rest : str) c tl : x = c :: tl -> num_char c = false -> is_numeric_text (x ++ rest) = None.
+Proof. intros -> H. cbn [app]. exact (not_numeric c (tl ++ rest) H). Qed.
+End DefaultMatcher.
